@@ -1307,4 +1307,168 @@ theorem apply_P (s : St) (op : Op) (wf : WF s.cfg) (hf : opFresh s op) (h : PInv
   | limits m so now => exact opLimits_P _ _ _ _ h
   | shutdown now => exact opShutdown_P _ _ h
 
+
+theorem removeBucket_cfg (s : St) (key : Nat) : (removeBucket s key).cfg = s.cfg := by
+  unfold removeBucket; split <;> rfl
+
+theorem trimChunks_cfg (s : St) (key : Nat) (t : Int) : (trimChunks s key t).cfg = s.cfg := by
+  unfold trimChunks; split <;> rfl
+
+theorem reduce_cfg (t : Int) (fuel : Nat) (s : St) : (reduce t fuel s).cfg = s.cfg := by
+  induction fuel generalizing s with
+  | zero => rfl
+  | succ n ih =>
+    simp only [reduce]
+    split
+    · rfl
+    · split
+      · exact removeBucket_cfg ..
+      · rw [ih]; exact removeBucket_cfg ..
+
+theorem trimPass_cfg (t : Int) (s : St) : (trimPass t s).cfg = s.cfg := by
+  unfold trimPass; split
+  · exact reduce_cfg ..
+  · rfl
+
+theorem afterUpdate_cfg (t : Int) (s : St) : (afterUpdate t s).cfg = s.cfg := by
+  unfold afterUpdate; split
+  · exact trimPass_cfg ..
+  · rfl
+
+theorem resetAll_cfg (s : St) : (resetAll s).cfg = s.cfg := by
+  have key : ∀ (ks : List Nat) (s : St), (ks.foldl removeBucket s).cfg = s.cfg := by
+    intro ks
+    induction ks with
+    | nil => intro s; rfl
+    | cons k ks ih => intro s; simp only [List.foldl_cons, ih]; exact removeBucket_cfg ..
+  exact key _ s
+
+theorem apply_cfg (s : St) (op : Op) : (apply s op).cfg = s.cfg := by
+  cases op with
+  | get id key play force f t now =>
+    simp only [apply, opGet_eq]
+    split
+    · rfl
+    · split
+      · rfl
+      · unfold getCore
+        cases findBucket key s.buckets <;> simp only [afterUpdate_cfg]
+  | fin id ok ver now =>
+    simp only [apply]
+    cases hfin : opFin s id ok ver now with
+    | none => rfl
+    | some s' =>
+      unfold opFin at hfin
+      split at hfin
+      · cases hfin
+      · split at hfin
+        · cases hfin
+        · split at hfin
+          · cases hfin
+          · injection hfin with hfin
+            subst hfin
+            simp only [Option.getD_some, finApply, afterUpdate_cfg]
+  | inv secs now => rfl
+  | trimChunks key t now => simp only [apply, afterUpdate_cfg, trimChunks_cfg]
+  | rmBucket key now => simp only [apply, afterUpdate_cfg, removeBucket_cfg]
+  | reset now => simp only [apply, afterUpdate_cfg, resetAll_cfg]
+  | limits m so now =>
+    simp only [apply, opLimits]
+    split
+    · rfl
+    · exact trimPass_cfg ..
+  | shutdown now => simp only [apply, opShutdown, reduce_cfg]
+
+theorem step_cfg (s : St) (op : Op) : (step s op).cfg = s.cfg := by
+  simp only [step, apply_cfg]
+
+/-- request ids are fresh: a `get` never reuses the id of an earlier request -/
+def FreshIds : St → List Op → Prop
+  | _, [] => True
+  | s, op :: ops => opFresh s op ∧ FreshIds (step s op) ops
+
+instance (cfg : Cfg) : Decidable (WF cfg) := by unfold WF; infer_instance
+
+instance opFreshDec (s : St) (op : Op) : Decidable (opFresh s op) := by
+  cases op <;> simp only [opFresh] <;> infer_instance
+
+instance freshIdsDec : (s : St) → (ops : List Op) → Decidable (FreshIds s ops)
+  | _, [] => isTrue trivial
+  | s, op :: ops => @instDecidableAnd _ _ (opFreshDec s op) (freshIdsDec (step s op) ops)
+
+theorem step_P (s : St) (op : Op) (wf : WF s.cfg) (hf : opFresh s op) (h : PInv s) : PInv (step s op) := by
+  have h0 : PInv { s with tick := s.tick + 1 } := ⟨h.ci, h.pl, h.pg, h.nd⟩
+  have hf0 : opFresh { s with tick := s.tick + 1 } op := by cases op <;> exact hf
+  have := apply_P { s with tick := s.tick + 1 } op wf hf0 h0
+  exact ⟨this.ci, this.pl, this.pg, this.nd⟩
+
+theorem run_P (ops : List Op) (s : St) (wf : WF s.cfg) (hf : FreshIds s ops) (h : PInv s) : PInv (run s ops) := by
+  induction ops generalizing s with
+  | nil => exact h
+  | cons op ops ih =>
+    exact ih (step s op) (by rw [step_cfg]; exact wf) hf.2 (step_P s op wf hf.1 h)
+
+theorem PInv_init (cfg : Cfg) : PInv (init cfg) := by
+  refine ⟨⟨?_, ?_, ?_, ?_⟩, ?_, ?_, ?_⟩
+  · intro cid; simp only [init, getChunk, List.getD_nil]; exact PC_noChunk _
+  · intro g hg; simp [init, ldsOf] at hg
+  · intro cid a ha; simp [init, getChunk, noChunk] at ha
+  · intro b hb; simp [init, bksOf] at hb
+  · intro l hl; simp [init] at hl
+  · intro l hl; simp [init] at hl
+  · simp [init]
+
+/-- every filled slot of every request buffer, after any sequence of operations with fresh request ids on a
+    well-formed shard, holds the cell of exactly its slot time and of the request's cache key -/
+theorem placement_all (cfg : Cfg) (wf : WF cfg) (ops : List Op) (hf : FreshIds (init cfg) ops) :
+    ∀ l ∈ (run (init cfg) ops).loaders, ∀ (i : Nat) (c : Cell), l.data[i]? = some (some c) →
+      c.t = l.timeStart / nsec + (i : Int) * cfg.step ∧ c.key = l.key := by
+  have h := run_P ops (init cfg) wf hf (PInv_init cfg)
+  have hc : (run (init cfg) ops).cfg = cfg := by
+    have : ∀ (ops : List Op) (s : St), (run s ops).cfg = s.cfg := by
+      intro ops
+      induction ops with
+      | nil => intro s; rfl
+      | cons op ops ih => intro s; simp only [run, List.foldl_cons] at ih ⊢; rw [ih, step_cfg]
+    exact this ops _
+  intro l hl i c hc'
+  have := h.pl l hl i (some c) hc' c rfl
+  rw [hc] at this
+  exact this
+
+/-- buffer slot `ls + i` of a request for `[f, …)` with `f` a multiple of the step is the slot of time `f + i·step` -/
+theorem request_slot_time (cfg : Cfg) (wf : WF cfg) (hs : 0 < cfg.step) (hK : 0 < cfg.K) (m : Int) (i : Nat) :
+    let f := m * cfg.step
+    let first := chunkStartOf cfg (f * nsec)
+    let ls := ((f * nsec - first) / (cfg.step * nsec)).toNat
+    0 ≤ m → first / nsec + ((ls + i : Nat) : Int) * cfg.step = f + (i : Int) * cfg.step := by
+  intro f first ls hm
+  have hn : (0 : Int) < nsec := by decide
+  have hT : 0 < cfg.step * nsec := Int.mul_pos hs hn
+  have hKi : (0 : Int) < cfg.K := by omega
+  have e1 : f * nsec = m * (cfg.step * nsec) := by simp only [f, Int.mul_assoc]
+  have e2 : cfg.dur = (cfg.K : Int) * (cfg.step * nsec) := by rw [wf, Int.mul_assoc]
+  have e3 : first = (m / cfg.K) * cfg.K * (cfg.step * nsec) := by
+    simp only [first, chunkStartOf, e1, e2]
+    rw [Int.mul_ediv_mul_of_pos_left _ _ hT, Int.mul_assoc]
+  have e4 : f * nsec - first = (m % cfg.K) * (cfg.step * nsec) := by
+    rw [e1, e3]
+    have := Int.mul_ediv_add_emod m cfg.K
+    have h2 : m = (m / cfg.K) * cfg.K + m % cfg.K := by rw [Int.mul_comm (m / ↑cfg.K)]; omega
+    conv => lhs; lhs; rw [h2]
+    rw [Int.add_mul]; omega
+  have e5 : (f * nsec - first) / (cfg.step * nsec) = m % cfg.K := by
+    rw [e4, Int.mul_ediv_cancel _ (Int.ne_of_gt hT)]
+  have e6 : 0 ≤ m % (cfg.K : Int) := Int.emod_nonneg _ (Int.ne_of_gt hKi)
+  have e7 : ((ls : Nat) : Int) = m % cfg.K := by simp only [ls, e5]; omega
+  have e8 : first / nsec = (m / cfg.K) * cfg.K * cfg.step := by
+    rw [e3, ← Int.mul_assoc, Int.mul_ediv_cancel _ (Int.ne_of_gt hn)]
+  rw [e8, Int.natCast_add, e7, Int.add_mul]
+  have := Int.mul_ediv_add_emod m cfg.K
+  have h2 : m = (m / cfg.K) * cfg.K + m % cfg.K := by rw [Int.mul_comm (m / ↑cfg.K)]; omega
+  show m / ↑cfg.K * ↑cfg.K * cfg.step + (m % ↑cfg.K * cfg.step + ↑i * cfg.step) = m * cfg.step + ↑i * cfg.step
+  conv => rhs; lhs; rw [h2]
+  rw [Int.add_mul]; omega
+
+
 end SH.TsCache.Place
